@@ -119,6 +119,9 @@ func txMethodArgs(mt reflect.Type, u *Universe, pick func(int) int) []reflect.Va
 
 // callEveryTxMethod calls every exported method of tx (except Commit/Rollback). It returns, per method, whether the
 // call reported an error, and any panic.
+// callBudget bounds the instrumented loops of one API call (see loopBudget); installed by runC12 / runC20.
+var callBudget = &loopBudget{limit: 100000}
+
 func callEveryTxMethod(tx *nutsdb.Tx, u *Universe, pick func(int) int) (noErr []string, panics []string, called int) {
 	v := reflect.ValueOf(tx)
 	t := v.Type()
@@ -135,6 +138,7 @@ func callEveryTxMethod(tx *nutsdb.Tx, u *Universe, pick func(int) int) (noErr []
 					panics = append(panics, m.Name+": "+panicClass(p))
 				}
 			}()
+			callBudget.reset()
 			outs := v.Method(i).Call(args)
 			called++
 			if n := len(outs); n > 0 && outs[n-1].Type().Implements(errT) {
@@ -164,6 +168,8 @@ func runC12(c *CaseCtx) {
 	mon.OnEvent = inj.onEvent
 	mon.Install()
 	defer mon.Uninstall()
+	nutsdb.VerifSetYieldHook(callBudget.hook)
+	defer nutsdb.VerifSetYieldHook(nil)
 	c.Log("cfg %s buckets=%v", cfg, u.Buckets)
 	if !run.Open() {
 		return
